@@ -98,6 +98,16 @@ func KgsimStoreShards(r RateLimiter) []int {
 	return out
 }
 `,
+	"pkg/gateway/controllers/zz_kgsim_export.go": `package controllers
+
+import proxyv1alpha1 "github.com/kubewharf/kubegateway/pkg/apis/proxy/v1alpha1"
+
+// KgsimSync handles one queue item the way the controller's worker does (kgsim worker build only).
+func KgsimSync(m *UpstreamClusterController, obj *proxyv1alpha1.UpstreamCluster) error {
+	_, err := m.syncUpstreamCluster(obj)
+	return err
+}
+`,
 	"pkg/ratelimiter/limiter/elector/zz_kgsim_export.go": `package elector
 
 // The three events client-go's leader election delivers for a shard, as the
@@ -352,7 +362,7 @@ func init() {
 			{World: "gw", Profile: "c11-history", Quick: 200, Thor: 10000, PerProc: 1},
 			{World: "gw", Profile: "c11p-preempt", Quick: 150, Thor: 8000, PerProc: 1},
 		},
-		Rule: "each run = 1-3 clusters, 6-40 steps of: a new object version mutating one hot-reloadable section (servers/disabled, policies incl. subsets, schema references and log modes, flow-control schemas incl. type/strategy/size, feature-gate annotation added/changed/gate removed/annotation removed/annotations nil, logging, serving certificate and client CA, server names from a colliding pool) through the real admission plugin, admission lister or controller informer held back and released (watch_delay: name conflicts reach the controller and are requeued), time advancing across the 5 s requeues, delete and re-create; at final quiescence a fresh twin gateway is built in the same bubble from the latest objects only and compared per cluster through public accessors and routing probes; distinct = distinct trace hash; non-trivial = at least 3 versions applied. One mutation in four takes one aspect back to the value it had before its last change (A -> B -> A histories per aspect). Profile c11p-preempt*: the same histories with preemption fuzzing (the gateway's own goroutines give up the processor at one in three statements of upstream_controller.go and clusterinfo.go; a PRNG of the run decides)",
+		Rule: "each run = 1-3 clusters, 6-40 steps of: a new object version mutating one hot-reloadable section (servers/disabled, policies incl. subsets, schema references and log modes, flow-control schemas incl. type/strategy/size, feature-gate annotation added/changed/gate removed/annotation removed/annotations nil, logging, serving certificate and client CA, server names from a colliding pool) through the real admission plugin, admission lister or controller informer held back and released (watch_delay: name conflicts reach the controller and are requeued), time advancing across the 5 s requeues, delete and re-create; at final quiescence a fresh twin gateway is built in the same bubble from the latest objects only and compared per cluster through public accessors and routing probes; distinct = distinct trace hash; non-trivial = at least 3 versions applied. One mutation in four takes one aspect back to the value it had before its last change (A -> B -> A histories per aspect). Profile c11p-preempt*: the same histories with preemption fuzzing (the gateway's own goroutines give up the processor at one in three statements of upstream_controller.go and clusterinfo.go; a PRNG of the run decides) One new version in three is followed at once by another version of the same cluster (nothing settles in between). A final state in which a cluster still holds a name its latest object gave up is known finding F-C10-1 of C10 and is not judged here",
 		Real: gwReal, Stub: gwStub, Assume: append([]string{"client connection settings are excluded (fixed at creation, as the statement says)", "runs whose final objects claim one name twice are not compared (which cluster serves it is C10's business)"}, gwAssume...),
 	})
 	reg(&Check{
@@ -361,8 +371,9 @@ func init() {
 		Batches: []Batch{
 			{World: "gw", Profile: "c10-names", Quick: 200, Thor: 10000, PerProc: 1},
 			{World: "gw", Profile: "c10p-preempt", Quick: 200, Thor: 10000, PerProc: 1},
+			{World: "ilv", Profile: "c10i-names", Quick: 6000, Thor: 300000, PerProc: 500, FaultFree: true},
 		},
-		Rule:     "each run = 2-4 clusters (one of them named like an alias of the pool), 8-45 steps of create/update with 0-3 server names drawn from a colliding mixed-case pool (incl. another cluster's name) and serving cert/client CA on or off, delete, re-create, admission lister or controller informer held back and released (conflicting claims reach the controller), clock advances, and stable points (no lag, 24 s later) with real requests whose Host header comes in drawn case with or without port; invariants at every boundary (a name resolves only to a claimant; an owner that claimed a name in every version never loses it), at stable points (deleted clusters stop resolving; with conflict-free latest objects resolution equals the claims; HTTP agrees with the manager) and TLS material per SNI at the end; distinct = distinct trace hash; non-trivial = at least 3 accepted writes. Profile c10p-preempt: the same histories while the controller's own goroutines give up the processor at one in three statements of upstream_controller.go / clusterinfo.go Sync (go/ast yields, a PRNG of the run decides), so that whatever else is runnable in the gateway runs inside a sync",
+		Rule:     "each run = 2-4 clusters (one of them named like an alias of the pool), 8-45 steps of create/update with 0-3 server names drawn from a colliding mixed-case pool (incl. another cluster's name) and serving cert/client CA on or off, delete, re-create, admission lister or controller informer held back and released (conflicting claims reach the controller), clock advances, and stable points (no lag, 24 s later) with real requests whose Host header comes in drawn case with or without port; invariants at every boundary (a name resolves only to a claimant; an owner that claimed a name in every version never loses it), at stable points (deleted clusters stop resolving; with conflict-free latest objects resolution equals the claims; HTTP agrees with the manager) and TLS material per SNI at the end; distinct = distinct trace hash; non-trivial = at least 3 accepted writes. Profile c10p-preempt: the same histories while the controller's own goroutines give up the processor at one in three statements of upstream_controller.go / clusterinfo.go Sync (go/ast yields, a PRNG of the run decides), so that whatever else is runnable in the gateway runs inside a sync In one update in two of a live cluster 1-2 requests for the cluster's own name are sent at the instant of the update; where the name resolved to the cluster before and after, they must be served by it. Profile c10i-names (ilv world, cooperative scheduler over the yield-instrumented upstream_controller.go): 1-3 clusters with aliases from pools of their own, one thread applying 1-6 alias-changing versions through the real syncUpstreamCluster (informer cache filled by hand, drawn pace and stall), 1-3 threads looking names up in the controller's table (3-12 look-ups each) under a drawn statement-level schedule; a name claimed by every version of its cluster in force at the moment of the look-up must resolve to it, one claimed by none must not, and no name resolves to another cluster",
 		NeedInst: []string{"pkg/gateway/controllers/upstream_controller.go"},
 		Real:     gwReal, Stub: gwStub, Assume: append([]string{"TLS selection is checked by calling WrapGetConfigForClient / SNIVerifyOptions directly (no handshakes are simulated)", "when two live latest objects claim one name the iff clause is not evaluated (which of them serves it is not stated)"}, gwAssume...),
 	})
@@ -385,7 +396,7 @@ func init() {
 			{World: "rl", Profile: "c09i-wrapper", Quick: 1500, Thor: 60000, PerProc: 1},
 			{World: "rl", Profile: "c09t-tbwrapper", Quick: 800, Thor: 30000, PerProc: 1},
 		},
-		Rule:     "each run = one gateway instance's real limiter stack (clientsets with heartbeat/readiness hysteresis, UpstreamLimiter, reconcile loop, global counter manager, wrappers, meters) for one cluster with 1-2 schemas (max-in-flight or token bucket x allocate or count strategy, local <= global), 20-120 steps of request bursts with drawn hold times, clock advances (50 ms - 6 s), server readiness flaps, leader unknown, partitions, against a scripted server that answers allocate/acquire with arbitrary int32 quotas and bursts (0, negative, > configured, MaxInt32), accept/reject, error strings and failures; then faults stop, the server answers an honest quota and the bounded-liveness clause is checked; distinct = distinct trace hash; non-trivial = requests were admitted through the server-controlled limiter and also refused or admitted locally. Max-in-flight schemas are reconfigured during the run (new local/global limits; after a lowering the previous limit is tolerated until the second allocate answer has come back, i.e. until a reconcile round that began after the change has completed) and the server may turn stale (repeats its previous answer per schema). Profile c09i-wrapper (rl world, bubble + cooperative scheduler): the count-strategy max-in-flight wrapper of one schema with its three callers as sim threads interleaved at statement granularity - the global counter delivering 1-5 server answers (error, accept / refuse with limits from 0 to 2^30, stale id), the reconcile loop applying 1-3 changed limits (local config, then Sync -> Resize), 2-5 requests (TryAcquire, hold, Release; a request waiting for an answer is left to its 300 ms time-out); each admission is judged against the loosest global limit in force at some moment of its TryAcquire call, and after quiescence at most the current global limit can be taken. Profile c09t-tbwrapper: the same for the token-bucket wrapper (3-40 answers, mostly accepts; admissions stamped on the fake clock and bounded per window by qps*T + burst of the loosest limits in force at some moment of the window, one fresh burst per change inside it)",
+		Rule:     "each run = one gateway instance's real limiter stack (clientsets with heartbeat/readiness hysteresis, UpstreamLimiter, reconcile loop, global counter manager, wrappers, meters) for one cluster with 1-2 schemas (max-in-flight or token bucket x allocate or count strategy, local <= global), 20-120 steps of request bursts with drawn hold times, clock advances (50 ms - 6 s), server readiness flaps, leader unknown, partitions, against a scripted server that answers allocate/acquire with arbitrary int32 quotas and bursts (0, negative, > configured, MaxInt32), accept/reject, error strings and failures; then faults stop, the server answers an honest quota and the bounded-liveness clause is checked; distinct = distinct trace hash; non-trivial = requests were admitted through the server-controlled limiter and also refused or admitted locally. Max-in-flight schemas are reconfigured during the run (new local/global limits; after a lowering the previous limit is tolerated until the second allocate answer has come back, i.e. until a reconcile round that began after the change has completed) and the server may turn stale (repeats its previous answer per schema). Profile c09i-wrapper (rl world, bubble + cooperative scheduler): the count-strategy max-in-flight wrapper of one schema with its three callers as sim threads interleaved at statement granularity - the global counter delivering 1-5 server answers (error, accept / refuse with limits from 0 to 2^30, stale id), the reconcile loop applying 1-3 changed limits (local config, then Sync -> Resize), 2-5 requests (TryAcquire, hold, Release; a request waiting for an answer is left to its 300 ms time-out); each admission is judged against the loosest global limit in force at some moment of its TryAcquire call, and after quiescence at most the current global limit can be taken. Profile c09t-tbwrapper: the same for the token-bucket wrapper (3-40 answers, mostly accepts; admissions stamped on the fake clock and bounded per window by qps*T + burst of the loosest limits in force at some moment of the window, one fresh burst per change inside it) A step switches the cluster's limiter type to local and back to remote (at one instant, or 100 ms apart). After the recovery phase count-strategy token buckets with global >= 2*local+4 are driven with 100 requests/s for 5 s: more must be admitted than the local fall-back allows",
 		NeedInst: []string{"pkg/flowcontrols/remote/global_flowcontrol.go"},
 		Real:     []string{"pkg/ratelimiter/clientsets (server-info sync, heartbeats, readiness hysteresis, client cache) over the simulated network", "pkg/flowcontrols UpstreamLimiter.Load/Sync/ResetLimiter", "pkg/flowcontrols/remote (reconcile loop, FlowControlCache, remote/local wrappers, global counter manager, maxInflight/tokenBucket wrappers, meters)", "client-go REST client encoding/decoding"},
 		Stub:     []string{"the limiter server (byzantine script: the property quantifies over whatever the server answers)", "request threads (GetOrDefault/TryAcquire/hold/Release as the dispatcher does)", "network (simnet round tripper with partitions), fake clock"},
@@ -399,7 +410,7 @@ func init() {
 			{World: "rl", Profile: "c07o-overlap", Quick: 1500, Thor: 60000, PerProc: 1, FaultFree: true},
 			{World: "rl", Profile: "c07h-handover", Quick: 200, Thor: 8000, PerProc: 1},
 		},
-		Rule:     "each run = 1-2 replicas with real lease election, 1-3 shards, 1-2 upstreams with a max-in-flight and optionally a token-bucket schema (global limits 1 ... 100000), 2-6+ honest instances (each echoes exactly the quota it was last answered, reports used >= 0 and RequestLevel = floor(100*used/current)), 20-80 steps of reports, limit changes through the real upstream controller (raise, lower below the allocated sum), clock advances, instances leaving and joining; after every answered report the quotas the leader has on record are read back through its exposed API; distinct = distinct trace hash; non-trivial = at least 5 answered reports from 2+ instances. Profile c07o-overlap: one leading replica (store local or API-backed), 2-4 instances, 3-12 rounds in each of which 1-3 honest reports run as sim threads through the yield-instrumented UpdateRateLimitConditionStatus under a drawn statement-level schedule; the over-commit clause is evaluated with the recorded sum at the start of the round. Profile c07h-handover: the c07-sequences workload and oracle with two replicas and the API-backed store (write-through, or periodic 1 s), plus crashes, lease-API cuts (graceful loss of leadership) and restarts; reports are answered by whoever leads; a report is judged against the records of the single leader that answered it, read before and after; non-trivial also needs a report answered after a leader change",
+		Rule:     "each run = 1-2 replicas with real lease election, 1-3 shards, 1-2 upstreams with a max-in-flight and optionally a token-bucket schema (global limits 1 ... 100000), 2-6+ honest instances (each echoes exactly the quota it was last answered, reports used >= 0 and RequestLevel = floor(100*used/current)), 20-80 steps of reports, limit changes through the real upstream controller (raise, lower below the allocated sum), clock advances, instances leaving and joining; after every answered report the quotas the leader has on record are read back through its exposed API; distinct = distinct trace hash; non-trivial = at least 5 answered reports from 2+ instances. Profile c07o-overlap: one leading replica (store local or API-backed), 2-4 instances, 3-12 rounds in each of which 1-3 honest reports run as sim threads through the yield-instrumented UpdateRateLimitConditionStatus under a drawn statement-level schedule; the over-commit clause is evaluated with the recorded sum at the start of the round. Profile c07h-handover: the c07-sequences workload and oracle with two replicas and the API-backed store (write-through, or periodic 1 s), plus crashes, lease-API cuts (graceful loss of leadership) and restarts; reports are answered by whoever leads; a report is judged against the records of the single leader that answered it, read before and after; non-trivial also needs a report answered after a leader change In c07o-overlap one round in two also reclaims an instance that does not report in that round (a sim thread running the statements of the sweep's goroutine, three times in four left alone once for 20-120 steps at a drawn statement), and one run in two starts with the pool handed out (hungry reports until nobody grows)",
 		NeedInst: []string{"pkg/ratelimiter/limiter/ratelimter.go"},
 		Real:     rlReal, Stub: rlStub, Assume: append([]string{"'honest' = echoes the last answered quota, used >= 0, RequestLevel = floor(100*used/current); an instance whose record was reclaimed still echoes its last quota"}, rlAssume...),
 	})
@@ -411,7 +422,7 @@ func init() {
 			{World: "rl", Profile: "c13-faults", Quick: 140, Thor: 7000, PerProc: 1},
 			{World: "rl", Profile: "c13i-leadercheck", Quick: 300, Thor: 15000, PerProc: 1, FaultFree: true},
 		},
-		Rule:     "each run = N in {1,2,3,5} shards, 2-3 replicas with real lease election (3 s leases), store local or API-backed, 2-4 upstreams, two gateway client sets; shard function observed for odd byte strings on both sides; 20-90 steps of allocate/acquire RPCs sent to a drawn replica (leader or not), clock advances, and faults: a replica cut off from the API server (leases expire), crash, restart, gateway-replica partitions; leadership is taken in each replica's own view at the boundaries around every call; distinct = distinct trace hash; non-trivial = at least one RPC served and one refused. Profile c13i-leadercheck (one replica whose real election loops never get a lease; bubble + cooperative scheduler over ratelimter.go and leader_elector.go): 4-14 rounds in each of which, per shard, at most one election event (started leading + new-leader report in either order, stopped leading, another leader observed) is delivered through the real elector methods and their callbacks, the periodic leader check runs, and 0-2 allocate/acquire calls arrive, all as sim threads under a drawn statement-level schedule; after a round (one in two, and the last) two undisturbed leader checks run and the in-memory stores must be exactly the led shards; a call whose shard was led at no moment of the call must be refused",
+		Rule:     "each run = N in {1,2,3,5} shards, 2-3 replicas with real lease election (3 s leases), store local or API-backed, 2-4 upstreams, two gateway client sets; shard function observed for odd byte strings on both sides; 20-90 steps of allocate/acquire RPCs sent to a drawn replica (leader or not), clock advances, and faults: a replica cut off from the API server (leases expire), crash, restart, gateway-replica partitions; leadership is taken in each replica's own view at the boundaries around every call; distinct = distinct trace hash; non-trivial = at least one RPC served and one refused. Profile c13i-leadercheck (one replica whose real election loops never get a lease; bubble + cooperative scheduler over ratelimter.go and leader_elector.go): 4-14 rounds in each of which, per shard, at most one election event (started leading + new-leader report in either order, stopped leading, another leader observed) is delivered through the real elector methods and their callbacks, the periodic leader check runs, and 0-2 allocate/acquire calls arrive, all as sim threads under a drawn statement-level schedule; after a round (one in two, and the last) two undisturbed leader checks run and the in-memory stores must be exactly the led shards; a call whose shard was led at no moment of the call must be refused With the API-backed store, one gain in three is a gain whose started-leading callback is held inside the List call of the store's Load while the stop event (and, one time in two, the new holder's identity) is delivered: the lease was lost while the shard was being loaded",
 		NeedInst: []string{"pkg/ratelimiter/limiter/ratelimter.go", "pkg/ratelimiter/limiter/elector/leader_elector.go"},
 		Real:     rlReal, Stub: rlStub, Assume: append([]string{"leadership in a replica's own view may overlap with another's for less than a lease under partition: the oracle does not assume a unique leader", "the range/determinism of the shard function over all names is only sampled (a pure function, see DESIGN §6)"}, rlAssume...),
 	})
@@ -421,7 +432,7 @@ func init() {
 		Batches: []Batch{
 			{World: "rl", Profile: "c18-lifecycle", Quick: 200, Thor: 10000, PerProc: 1},
 		},
-		Rule: "each run = 1-2 replicas (store local / API-backed write-through / periodic), one upstream with an allocate and a count schema, 2-4+ instances with real client sets (heartbeats every second); 25-90 steps of allocate reports, acquire reports, clock advances (1-36 s), instances dying or being cut off, coming back with the old identity or joining anew, a replica cut off from the API server; at every boundary: an instance silent for > 36 s under a stable leader has no condition on record, an instance whose heartbeats arrive at the stable leader with gaps < 3 s keeps its condition; at the end a survivor must be granted the in-flight capacity not held by live instances; distinct = distinct trace hash; non-trivial = both clauses were evaluated. Instance names follow a drawn --client-id-prefix style (plain; with the in-memory store also host:port or longer than 63 characters). One joining instance in three sends its first acquire 50-1200 ms after its start, i.e. possibly before its first heartbeat, and may die at once",
+		Rule: "each run = 1-2 replicas (store local / API-backed write-through / periodic), one upstream with an allocate and a count schema, 2-4+ instances with real client sets (heartbeats every second); 25-90 steps of allocate reports, acquire reports, clock advances (1-36 s), instances dying or being cut off, coming back with the old identity or joining anew, a replica cut off from the API server; at every boundary: an instance silent for > 36 s under a stable leader has no condition on record, an instance whose heartbeats arrive at the stable leader with gaps < 3 s keeps its condition; at the end a survivor must be granted the in-flight capacity not held by live instances; distinct = distinct trace hash; non-trivial = both clauses were evaluated. Instance names follow a drawn --client-id-prefix style (plain; with the in-memory store also host:port or longer than 63 characters). One joining instance in three sends its first acquire 50-1200 ms after its start, i.e. possibly before its first heartbeat, and may die at once One run in two the instances keep a client for the upstream's leader like the gateway's reconcile loop (every 2 s). Every delete the simulated API applies is logged with how long the deleting replica had led: a replica that has led for less than 2.5 s may not delete the condition of an instance that is alive and whose last heartbeat arrived (anywhere) less than 2.9 s before. With the API-backed store the API object of a condition is sometimes deleted out of band",
 		Real: rlReal, Stub: rlStub, Assume: append([]string{"'the cleanup period' is read as the longer of the two shipped mechanisms: 3 s heartbeat timeout + 30 s sweep + 2 s", "heartbeat arrival is observed on the simulated network"}, rlAssume...),
 	})
 	reg(&Check{ID: "SMOKE", Title: "debug", Batches: []Batch{{World: "gw", Profile: "smoke", Quick: 1, Thor: 1, PerProc: 1}}})
